@@ -1,5 +1,6 @@
 """Obligation name (regex) -> replay driver script (run natively on /repo with /venv/bin/python)."""
 DRIVERS = [
+    (r"push/__init__\.py:|grpc/__init__\.py:(convert_value|__convert_attributes|convert_resource|safe_text)/", "c08_wire.py"),
     (r"LogActionResult\.process/LOG", "c16_log_ids.py"),
     (r"TracepointConfigService\.(add_custom|remove_custom)/", "c13_handles.py"),
     (r"TaskHandler\.flush/", "c09_flush.py"),
@@ -11,3 +12,18 @@ DRIVERS = [
     (r"thread_local\.py:ThreadLocal\.", "c15_threadlocal.py"),
     (r"TriggerContext\.evaluate_expression/PRE/call:eval/", "c10_eval_scope.py"),
 ]
+
+# driver -> properties whose thorough tier runs it natively on the working tree (CPython cross-check of the clauses)
+DRIVER_PROPS = {
+    "c01_trace_call_escapes.py": ["C01"],
+    "c05_breadth_first.py": ["C05"],
+    "c06_independent_snapshots.py": ["C06", "C07"],
+    "c06_total_collection.py": ["C06", "C02"],
+    "c08_wire.py": ["C08"],
+    "c09_flush.py": ["C09"],
+    "c10_eval_scope.py": ["C10"],
+    "c13_handles.py": ["C13"],
+    "c15_threadlocal.py": ["C15"],
+    "c16_log_ids.py": ["C16"],
+    "c19_env_config.py": ["C19"],
+}
